@@ -468,6 +468,14 @@ class Program:
         self.promoted = {}
         for p, lst in facts.get("promoted", {}).items():
             self.promoted[p] = [Body("%s::promoted[%d]" % (p, i), m) for i, m in enumerate(lst)]
+        # constant items: path -> Body of the CTFE body; (trait item path, self type) -> impl const path
+        self.consts = {}
+        self.trait_consts = {}
+        for p, j in facts.get("consts", {}).items():
+            if "mir" in j:
+                self.consts[p] = Body(p, {"mir": j["mir"], "kind": "Const", "span": j.get("span")})
+            if j.get("trait_item") and j.get("self_ty"):
+                self.trait_consts[(j["trait_item"], j["self_ty"])] = p
         self.adts = facts["adts"]
         self.nodes = facts["graph"]["nodes"]
         self.roots = {}
